@@ -1217,6 +1217,7 @@ var Rules = []report.Rule{
 	{ID: "G35", Floor: 1, Props: []string{"C15", "C13"}, Text: "syntax the generator synthesises (composite literals of go/ast node types; they carry no position, so the hoisting printer prints them in place) is closed: every element of syntax type is itself such a literal, ast.NewIdent(...) or nil - a made-up node never wraps a user expression (seed C15_m)"},
 	{ID: "G36", Floor: 20, Props: []string{"C13", "C16"}, Text: "in the generator a branch taken because an error value is not nil never returns the literal nil as the function's error result (an error in hand is not turned into success; found by the mutation sweep of gen.go)"},
 	{ID: "G37", Floor: 20, Props: []string{"C14", "C13"}, Text: "in the methods of the compiler that return a pointer, a conditional `return nil` stands in a block that reports a diagnostic first, or only hands on a failure reported where it arose (a nil result of another compiler method, the recorded diagnostics): the compiler never gives up on a directive, an option or a task silently (mutation sweep of compile_parallel.go)"},
+	{ID: "G45", Floor: 1, Props: []string{"C13"}, Text: "the import names recorded for the templates exclude `_` and `.`: where the file's import table is filled a test of the name against both leaves first, or every \"import\" template function makes that test"},
 	{ID: "G44", Floor: 0, Props: []string{"C16"}, Text: "in the loader (internal/pkg) and the command (cmd/cff) the Filename of a token.Position - which //line directives rewrite - is used for diagnostics only: the names that decide output paths and -file selection come from go/packages or token.File.Name()"},
 	{ID: "G43", Floor: 0, Props: []string{"C11", "C02", "C15"}, Text: "a record of the compiler that holds the syntax it was compiled from (a field of type ast.Expr / ast.Node) is cached, if at all, under a key that is syntax too: never under a type or signature, which different expressions share"},
 	{ID: "G42", Floor: 4, Props: []string{"C13", "C14", "C15"}, Text: "every switch of the compiler over the name of an option function covers all functions of package cff that return the same option type as the ones it names, or has a default clause that reports a diagnostic: no option a type-correct directive can pass is dropped in silence"},
@@ -1305,6 +1306,7 @@ func Run(repo *load.Repo, s *report.Sink) error {
 		{[]string{"G42"}, c.optionDispatch},
 		{[]string{"G43"}, c.syntaxMemo},
 		{[]string{"G44"}, c.fileNames},
+		{[]string{"G45"}, c.importNames},
 		{[]string{"G29"}, c.structuralAssertions},
 	}
 	for _, st := range steps {
